@@ -17,7 +17,7 @@ for sd in seeds:
         r = subprocess.run(['patch', '-p1', '-s', '-i', os.path.join(ROOT, 'seeded', sd, 'patch.diff')], cwd=tmp)
         res = {}
         def one(p):
-            env = dict(os.environ, CALLOOP_REPO=tmp, VERIF_EVIDENCE_DIR=os.path.join(tmp, 'evidence'), VERIF_BUILD_DIR=os.path.join(tmp, 'build'), VERIF_REPLAY_DIR=os.path.join(tmp, 'replay'), VERIF_JOBS='4')
+            env = dict(os.environ, CALLOOP_REPO=tmp, VERIF_EVIDENCE_DIR=os.path.join(tmp, 'evidence'), VERIF_BUILD_DIR=os.path.join(tmp, 'build'), VERIF_REPLAY_DIR=os.path.join(tmp, 'replay'), VERIF_JOBS='4', VERIF_DIAG='1', VERIF_NO_SELFTEST='1')
             o = subprocess.run([os.path.join(ROOT, 'check'), p], capture_output=True, text=True, env=env)
             viol = [l for l in o.stdout.splitlines() if l.startswith('VIOLATION')]
             und = [l for l in o.stdout.splitlines() if l.startswith('UNDECIDED') and 'tier=' not in l]
